@@ -5,6 +5,9 @@ sys.path.insert(0, os.path.dirname(os.path.abspath(__file__)))
 from checks_config import CHECKS, NOT_APPLICABLE, ENGINES
 
 props = [json.loads(l)["id"] for l in open("properties.jsonl")]
+# only checks validated by the maintainer of /verif (zero alarms on the unchanged tree, detection shown) are claimed
+READY = set(open("ready.txt").read().split())
+CHECKS = {k: v for k, v in CHECKS.items() if k in READY}
 checks = []
 for pid in props:
     if pid not in CHECKS:
